@@ -312,7 +312,11 @@ func kindSpec(k int) vc.Val {
 var intTexts = []string{"0", "1", "-1", "42", "2147483647", "2147483648", "-2147483648", "-2147483649", "4294967295", "4294967296", "9223372036854775807",
 	"9223372036854775808", "-9223372036854775808", "-9223372036854775809", "18446744073709551615", "18446744073709551616", "9007199254740993",
 	"1.0", "1.5", "-0.0", "1e3", "1E3", "1e-3", "15e-1", "1.50e1", "1e19", "1e400", "1e4000", "2.5e+2", "-1e0", "1099511627776", "0.5", "-0",
-	"01", "+1", "1.", ".5", "0x10", "1_000", " 1", "1 ", "NaN", "Infinity", "true", "null", "", "abc", "१"}
+	"01", "+1", "1.", ".5", "0x10", "1_000", " 1", "1 ", "NaN", "Infinity", "true", "null", "", "abc", "१",
+	// fractions and exponents on integers beyond 2^53: exact decimal arithmetic is needed, a float64 detour alters or rejects them
+	"9007199254740993.0", "1234567890123456789e0", "9223372036854775807.0", "922337203685477580.7e1", "1.8446744073709551615e19",
+	"18446744073709551615.0", "9007199254740992.5", "1000000000000000000.1", "-9223372036854775808.0", "-922337203685477580.8e1",
+	"9223372036854775807.5", "92233720368547758070e-1", "0.9223372036854775807e19", "4611686018427387905.00"}
 var floatTexts = []string{"0", "-0", "1", "-1.5", "3.14", "1e10", "1e38", "3.4028234663852886e38", "3.4028235677973366e38", "3.5e38", "1e39", "1e40", "-1e40", "1e308", "1.7976931348623157e308",
 	"1e309", "4.9e-324", "1e-400", "0.1", "123456789.125", "16777217", "9007199254740993",
 	"16777217.000000000001", "16777216.999999999999", "1.00000017881393432617187500001", "3.4028235677973362e38", "-3.4028235677973366e38", "0.000001e45", "340282356779733661637539395458142568447", "340282356779733661637539395458142568448"}
